@@ -159,3 +159,60 @@ Proof.
   destruct (fvisit vd (T 0 dummy_info ch) false) as [[[must acts] stopped] failed].
   split; [reflexivity|]. split; [apply (WF_apply_facts acts t (WFw_tree w ti t H Gt))|apply apply_facts_account].
 Qed.
+
+(* ------------------------------------------------------------------ *)
+(* the fuel of sort_deep is never the reason of a failure: with a key for every node the
+   deep sort does not fail (so ECrash of a sort is always a raising key) *)
+Definition total_keys (k : keyt) : Prop := forall n, key_of k n <> None.
+
+Lemma total_keys_ok k l : total_keys k -> keys_ok k l = true.
+Proof.
+  intros T. unfold keys_ok. apply forallb_forall. intros t _. specialize (T (rid t)). destruct (key_of k (rid t)); congruence.
+Qed.
+
+Lemma size_in_le c l : In c l -> size c <= size_f l.
+Proof.
+  induction l as [|x l IH]; intros []; rewrite size_f_cons; [subst; lia|]. specialize (IH H). lia.
+Qed.
+
+Lemma go_no_fail (sd : rt -> bool -> rt * bool) (go : list rt -> bool -> list rt * bool) :
+  (forall fl, go [] fl = ([], fl)) ->
+  (forall c l fl, go (c :: l) fl = let (c', f1) := sd c fl in let (r', f2) := go l f1 in (c' :: r', f2)) ->
+  forall l, (forall c, In c l -> snd (sd c false) = false) -> snd (go l false) = false.
+Proof.
+  intros G0 G1. induction l as [|c l IH]; intros Hs; [now rewrite G0|].
+  rewrite G1. assert (Hc := Hs c (or_introl eq_refl)). destruct (sd c false) as [c' f1]. cbn [snd] in Hc. subst f1.
+  assert (Hl : snd (go l false) = false) by (apply IH; intros x Hx; apply Hs; now right).
+  destruct (go l false) as [r' f2]. exact Hl.
+Qed.
+
+Lemma sort_deep_fuel_enough k rev : total_keys k ->
+  forall fuel t, size t <= fuel -> snd (sort_deep fuel k rev t false) = false.
+Proof.
+  intros T. induction fuel as [|fuel IH]; intros [id i ch] Hs; [rewrite size_unfold in Hs; lia|].
+  cbn [sort_deep]. destruct ch as [|c0 ch0]; [reflexivity|].
+  rewrite (total_keys_ok k _ T). cbn [negb]. cbv zeta. cbn [snd].
+  apply (go_no_fail (sort_deep fuel k rev)); [reflexivity|reflexivity|].
+  intros c Hc. apply IH. assert (Hin : In c (c0 :: ch0)) by (apply (Permutation_in _ (py_sort_perm k rev (c0 :: ch0))); exact Hc).
+  apply size_in_le in Hin. rewrite size_unfold in Hs. lia.
+Qed.
+
+Theorem sort_total_never_fails k rev deep ch : total_keys k -> snd (sort_list k rev deep ch) = false.
+Proof.
+  intros T. unfold sort_list. destruct ch as [|c0 ch0]; [reflexivity|].
+  destruct (Nat.eqb (length (c0 :: ch0)) 1 && negb deep); [reflexivity|].
+  rewrite (total_keys_ok k _ T). cbn [negb]. cbv zeta. destruct deep; [|reflexivity].
+  apply (go_no_fail (sort_deep (S (size_f (c0 :: ch0))) k rev)); [reflexivity|reflexivity|].
+  intros c Hc. apply (sort_deep_fuel_enough k rev T).
+  assert (Hin : In c (c0 :: ch0)) by (apply (Permutation_in _ (py_sort_perm k rev (c0 :: ch0))); exact Hc).
+  apply size_in_le in Hin. lia.
+Qed.
+
+Corollary sort_crash_is_a_raising_key w ti p k rev deep :
+  fst (op_sort w ti p k rev deep) = Err ECrash -> ~ total_keys k.
+Proof.
+  intros E T. unfold op_sort in E. destruct (get_tree w ti) as [t|]; [|discriminate].
+  destruct (parent_path p (forest_of t)) as [pq|]; [|discriminate]. destruct (get_ch pq (forest_of t)) as [ch|]; [|discriminate].
+  assert (X := sort_total_never_fails k rev deep ch T). destruct (sort_list k rev deep ch) as [ch' failed]. cbn [snd] in X. subst failed.
+  discriminate E.
+Qed.
